@@ -54,6 +54,15 @@ CHECKS["C20"] = (
     "independence (edits on either side) and strip are judged against the abstract annotation.",
     "Assumes TLC and the projection are correct; perturbations are produced by the driver but classified by the spec.",
     "DESIGN.md §6 C20")
+CHECKS["C16"] = (
+    "TLA+ reference spec (Search.tla) + TLC model check of the scan machine in both variants (MC_Search: overlapped "
+    "scan refines Occurrences, non-overlapped does not) + TLC trace validation of recorded find/coverage/"
+    "percent_coverage/is_subsequence calls (Trace_Search)",
+    "TLC shows the overlapped regex-scan machine returns exactly the declarative occurrence set for all targets <=6 / "
+    "queries <=3 over two letters; the real functions are then run on every target <=9 x query <=4 over {A,K} and on "
+    "seeded modified targets, and TLC judges each recorded result against the declarative definitions.",
+    "Assumes TLC and the projection are correct. Targets carry no ambiguity intervals (the statement does not say "
+    "what a match inside an interval means).", "DESIGN.md §6 C16")
 NOT_YET = "check not built yet in this round (planned with the TLA+ technique, see DESIGN.md §6)"
 
 
